@@ -206,6 +206,23 @@ type mixRec struct{ logp []float64 }
 
 func (r mixRec) LogPdf(s Scalar, c int) error { s.SetFloat64(r.logp[c]); return nil }
 
+// data record that evaluates a clone of the mixture after it has delivered its own value
+type reentrantRec struct {
+	logp  []float64
+	clone *generic.Mixture
+	t     styp
+}
+
+func (r reentrantRec) LogPdf(s Scalar, c int) error {
+	s.SetFloat64(r.logp[c])
+	tmp := NewScalar(r.t.t, 0.0)
+	inner := mixRec{r.logp}
+	r.clone.LogPdf(tmp, inner)
+	r.clone.Posterior(tmp, inner, []int{0})
+	r.clone.Likelihood(tmp, inner, []int{0})
+	return nil
+}
+
 func logTable(em [][]int, eden int) [][]float64 {
 	r := make([][]float64, len(em))
 	for c := range em {
@@ -415,6 +432,7 @@ type ctxHmm struct {
 	impl string
 	typ  string
 	tl   float64
+	hist *histRef // set when the call is part of a history on one object (hist.go)
 }
 
 func (x *ctxHmm) sig(op, what string) vh.M {
@@ -422,11 +440,15 @@ func (x *ctxHmm) sig(op, what string) vh.M {
 	if isIdentity(x.c.Smap) {
 		smap = "id"
 	}
-	return vh.M{"engine": "hmm", "impl": x.impl, "type": x.typ, "op": op, "what": what,
+	sg := vh.M{"engine": "hmm", "impl": x.impl, "type": x.typ, "op": op, "what": what,
 		"start": len(x.c.Start) > 0, "final": len(x.c.Final) > 0, "smap": smap}
+	if x.hist != nil {
+		sg["history"] = true
+	}
+	return sg
 }
 func (x *ctxHmm) fail(op, what string, si int, exp, got interface{}) {
-	x.rep.mismatch(x.sig(op, what), vh.M{"mode": "replay", "kind": "hmm", "case": x.c, "seq": si, "expected": exp, "observed": got})
+	x.rep.mismatch(x.sig(op, what), x.hist.detail(vh.M{"mode": "replay", "kind": "hmm", "case": x.c, "seq": si, "expected": exp, "observed": got}))
 }
 func fl(v float64) interface{} {
 	if math.IsNaN(v) {
@@ -1116,12 +1138,20 @@ func (g scaMix) Likelihood(s []int) (float64, error) {
 	return r.GetFloat64(), err
 }
 
-func checkMixture(rep *reporter, c *mixCase, impl string, t styp, mx mixer) {
+func checkMixture(rep *reporter, c *mixCase, impl string, t styp, mx mixer, hist ...*histRef) {
+	var h *histRef
+	if len(hist) > 0 {
+		h = hist[0]
+	}
 	sig := func(op, what string) vh.M {
-		return vh.M{"engine": "mixture", "impl": impl, "type": t.name, "op": op, "what": what}
+		sg := vh.M{"engine": "mixture", "impl": impl, "type": t.name, "op": op, "what": what}
+		if h != nil {
+			sg["history"] = true
+		}
+		return sg
 	}
 	fail := func(op, what string, exp, got interface{}) {
-		rep.mismatch(sig(op, what), vh.M{"mode": "replay", "kind": "mix", "case": c, "expected": exp, "observed": got})
+		rep.mismatch(sig(op, what), h.detail(vh.M{"mode": "replay", "kind": "mix", "case": c, "expected": exp, "observed": got}))
 	}
 	atomic.AddInt64(&rep.ncmp, 1)
 	lp, err := mx.LogPdf()
@@ -1188,6 +1218,10 @@ func runMixCase(rep *reporter, c *mixCase, idx int) {
 				m = m.Clone()
 			}
 			checkMixture(rep, c, "generic", t, genMix{m, mixRec{comp}, t})
+			// a clone is an independent object: evaluating the clone while an evaluation of the original is
+			// in progress (here: from inside the data record, as a nested model or a second worker would)
+			// must not disturb the original; the demanded values are the same
+			checkMixture(rep, c, "generic-clone-reentrant", t, genMix{m, reentrantRec{comp, m.Clone(), t}, t})
 		}))
 	}
 	t := f64
@@ -1253,7 +1287,7 @@ type slot struct {
 
 func replay(args []string) {
 	if len(args) < 3 {
-		vh.Fatal("usage: hmm replay cases results hmm|mix")
+		vh.Fatal("usage: hmm replay cases results hmm|mix|hist")
 	}
 	kind := args[2]
 	out := vh.NewOut(args[1])
@@ -1305,7 +1339,13 @@ func replay(args []string) {
 				s.mu.Lock()
 				s.busy, s.start, s.line = true, time.Now(), string(j.line)
 				s.mu.Unlock()
-				if kind == "mix" {
+				if kind == "hist" {
+					var c histCase
+					if e := json.Unmarshal(j.line, &c); e != nil {
+						vh.Fatal("bad case:", e, string(j.line[:min(200, len(j.line))]))
+					}
+					runHistCase(rep, &c, j.idx)
+				} else if kind == "mix" {
 					var c mixCase
 					if e := json.Unmarshal(j.line, &c); e != nil {
 						vh.Fatal("bad case:", e, string(j.line[:min(200, len(j.line))]))
@@ -1337,8 +1377,12 @@ func replay(args []string) {
 	if err != nil {
 		vh.Fatal(err)
 	}
-	vh.Summary(out, vh.M{"cases": ncases, "comparisons": rep.ncmp, "mismatches": rep.nmis, "features": rep.features(),
-		"viterbi_tiebreak_drift": rep.drift})
+	sum := vh.M{"cases": ncases, "comparisons": rep.ncmp, "mismatches": rep.nmis, "features": rep.features(),
+		"viterbi_tiebreak_drift": rep.drift}
+	if kind == "hist" {
+		sum["history_features"] = histSummary()
+	}
+	vh.Summary(out, sum)
 }
 
 func min(a, b int) int {
@@ -1380,6 +1424,8 @@ type event struct {
 	K     int       `json:"k"`
 	W     []int     `json:"w"`
 	S     []int     `json:"s"`
+	H     int       `json:"h"`  // 1: the call was made on the long-lived object of a history
+	Ck    string    `json:"ck"` // kind of a parameter change (events hchg / mchg)
 }
 
 func composition(rng *rand.Rand, total, parts int) []int {
@@ -1458,6 +1504,184 @@ func randomModel(rng *rand.Rand) *hmmCase {
 	}
 }
 
+// the inference calls of one trial on the object h whose current parameters are c
+func recordCalls(rng *rand.Rand, out *vh.Out, c *hmmCase, h *generic.Hmm, t styp, x []int, q [][]int, hflag int) {
+	n := len(x)
+	base := event{E: "hmm", M: c.M, Pi: c.Pi, Tr: c.Tr, Smap: c.Smap, Em: c.Em, Eden: c.Eden, Start: c.Start, Final: c.Final,
+		X: x, Marg: [][]int64{}, Q: [][]int{}, Path: []int{}, W: []int{}, S: []int{}, H: hflag}
+	logE := logTable(c.Em, c.Eden)
+	rec := tableRec{logE, x, 0}
+	inf := genInf{h, rec, t}
+	lp, err := inf.logPdf()
+	zero := err == nil && math.IsInf(lp, -1)
+	e := base
+	e.Op, e.Impl, e.Zero, e.V = "logpdf", "generic-"+t.name, zero, fixed(lp)
+	if err != nil {
+		e.V = -1
+	}
+	out.Put(e)
+	if zero {
+		return
+	}
+	if g, err := inf.marginals(); err == nil {
+		e := base
+		e.Op, e.Impl = "marginals", "generic-"+t.name
+		for tt := 0; tt < n; tt++ {
+			row := make([]int64, c.M)
+			for i := 0; i < c.M; i++ {
+				row[i] = fixed(g[i].At(tt).GetFloat64())
+			}
+			e.Marg = append(e.Marg, row)
+		}
+		out.Put(e)
+	} else {
+		e := base
+		e.Op, e.Impl, e.V = "marginals-error:"+err.Error(), "generic-"+t.name, -1
+		out.Put(e)
+	}
+	{
+		q0 := make([][]int, n)
+		for tt := range q {
+			q0[tt] = minus1(q[tt])
+		}
+		v, err := inf.posterior(q0)
+		e := base
+		e.Op, e.Impl, e.Q, e.V = "posterior", "generic-"+t.name, q, fixed(v)
+		if err != nil {
+			e.V = -1
+		}
+		out.Put(e)
+	}
+	if p, err := inf.viterbi(); err == nil {
+		e := base
+		e.Op, e.Impl = "viterbi", "generic-"+t.name
+		for _, s := range p {
+			e.Path = append(e.Path, s+1)
+		}
+		out.Put(e)
+	}
+	// the float64-specialised recursion: likelihood and (identity state map) marginals of one Baum-Welch step
+	if len(c.Final) <= 1 {
+		cc := *c
+		cc.Seqs = []seqCase{{X: x}}
+		if res, err := runBaumWelch(&cc, h, logE); err == nil {
+			e := base
+			e.Op, e.Impl, e.V = "logpdf", "optimized-"+t.name, fixed(res.lik)
+			out.Put(e)
+			if isIdentity(c.Smap) {
+				e := base
+				e.Op, e.Impl = "marginals", "optimized-"+t.name
+				for tt := 0; tt < n; tt++ {
+					row := make([]int64, c.M)
+					for i := 0; i < c.M; i++ {
+						row[i] = fixed(res.gamma[i][tt])
+					}
+					e.Marg = append(e.Marg, row)
+				}
+				out.Put(e)
+			}
+		}
+	}
+}
+
+// a random admissible parameter change of the long-lived object: applied to the real object h,
+// logged as an "hchg" event; returns the object and the recorder's copy of its parameters
+func recordChange(rng *rand.Rand, out *vh.Out, c *hmmCase, h *generic.Hmm, t styp) (*hmmCase, *generic.Hmm) {
+	blank := event{E: "hchg", Pi: []int{}, Tr: [][]int{}, Smap: []int{}, Em: [][]int{}, Start: []int{}, Final: []int{}, X: []int{},
+		Marg: [][]int64{}, Q: [][]int{}, Path: []int{}, W: []int{}, S: []int{}, H: 1}
+	nc := *c
+	for try := 0; try < 50; try++ {
+		switch rng.Intn(4) {
+		case 0: // SetParameters: new rows (compositions of 4..6), Pi supported inside the start set
+			rs := 4 + rng.Intn(3)
+			pi := composition(rng, rs, c.M)
+			okp := sumOver(pi, nil) > 0
+			if len(c.Start) > 0 {
+				in := map[int]bool{}
+				for _, i := range c.Start {
+					in[i] = true
+				}
+				for i := range pi {
+					if !in[i+1] && pi[i] != 0 {
+						okp = false
+					}
+				}
+			}
+			tr := [][]int{}
+			for i := 0; i < c.M; i++ {
+				row := composition(rng, rs, c.M)
+				okp = okp && sumOver(row, c.Final) > 0
+				tr = append(tr, row)
+			}
+			if !okp {
+				continue
+			}
+			if err := h.SetParameters(hmmParams(t, pi, tr)); err != nil {
+				panic(err)
+			}
+			e := blank
+			e.Ck, e.Pi, e.Tr = "set", pi, tr
+			out.Put(e)
+			nc.Pi, nc.Tr = pi, tr
+			return &nc, h
+		case 1: // SetStartStates: cumulative restriction of the current initial vector
+			s := randSubset(rng, c.M, false)
+			pi := make([]int, c.M)
+			for _, i := range s {
+				pi[i-1] = c.Pi[i-1]
+			}
+			if len(c.Start) > 0 {
+				in := map[int]bool{}
+				for _, i := range c.Start {
+					in[i] = true
+				}
+				for i := range pi {
+					if !in[i+1] {
+						pi[i] = 0
+					}
+				}
+			}
+			if sumOver(pi, nil) == 0 {
+				continue
+			}
+			if err := h.SetStartStates(minus1(s)); err != nil {
+				panic(err)
+			}
+			e := blank
+			e.Ck, e.S = "start", s
+			out.Put(e)
+			nc.Pi, nc.Start = pi, s
+			return &nc, h
+		case 2: // SetFinalStates
+			f := randSubset(rng, c.M, false)
+			okf := true
+			for i := 0; i < c.M; i++ {
+				okf = okf && sumOver(c.Tr[i], f) > 0
+			}
+			if !okf {
+				continue
+			}
+			if err := h.SetFinalStates(minus1(f)); err != nil {
+				panic(err)
+			}
+			e := blank
+			e.Ck, e.S = "final", f
+			out.Put(e)
+			nc.Final = f
+			return &nc, h
+		default:
+			e := blank
+			e.Ck = "clone"
+			out.Put(e)
+			return &nc, h.Clone()
+		}
+	}
+	e := blank
+	e.Ck = "clone"
+	out.Put(e)
+	return &nc, h.Clone()
+}
+
 func record(args []string) {
 	if len(args) < 2 {
 		vh.Fatal("usage: hmm record trace ntrials")
@@ -1470,7 +1694,7 @@ func record(args []string) {
 	wd := vh.NewWatchdog(30*time.Second, out, vh.M{"engine": "trace"})
 	for tr := 0; tr < ntr; tr++ {
 		if tr%5 == 4 {
-			recordMixture(rng, out)
+			recordMixture(rng, out, tr%2 == 0)
 			continue
 		}
 		c := randomModel(rng)
@@ -1479,103 +1703,56 @@ func record(args []string) {
 		for i := range x {
 			x[i] = rng.Intn(2)
 		}
-		c.Seqs = []seqCase{{X: x}}
-		base := event{E: "hmm", M: c.M, Pi: c.Pi, Tr: c.Tr, Smap: c.Smap, Em: c.Em, Eden: c.Eden, Start: c.Start, Final: c.Final,
-			X: x, Marg: [][]int64{}, Q: [][]int{}, Path: []int{}, W: []int{}, S: []int{}}
+		q := make([][]int, n)
+		for tt := range q {
+			q[tt] = randSubset(rng, c.M, rng.Intn(6) == 0)
+		}
 		t := f64
 		if tr%2 == 1 {
 			t = r64
 		}
+		history := tr%3 == 0
 		wd.Begin(c)
 		msg := vh.Try(func() {
 			h, err := buildGeneric(c, t, tr%2)
 			if err != nil {
 				panic(err)
 			}
-			logE := logTable(c.Em, c.Eden)
-			rec := tableRec{logE, x, 0}
-			inf := genInf{h, rec, t}
-			lp, err := inf.logPdf()
-			zero := err == nil && math.IsInf(lp, -1)
-			e := base
-			e.Op, e.Impl, e.Zero, e.V = "logpdf", "generic-"+t.name, zero, fixed(lp)
-			if err != nil {
-				e.V = -1
-			}
-			out.Put(e)
-			if zero {
+			if !history {
+				recordCalls(rng, out, c, h, t, x, q, 0)
 				return
 			}
-			if g, err := inf.marginals(); err == nil {
-				e := base
-				e.Op, e.Impl = "marginals", "generic-"+t.name
-				for tt := 0; tt < n; tt++ {
-					row := make([]int64, c.M)
-					for i := 0; i < c.M; i++ {
-						row[i] = fixed(g[i].At(tt).GetFloat64())
-					}
-					e.Marg = append(e.Marg, row)
-				}
-				out.Put(e)
-			} else {
-				e := base
-				e.Op, e.Impl, e.V = "marginals-error:"+err.Error(), "generic-"+t.name, -1
-				out.Put(e)
+			// one object, calls - change - the same calls - change - the same calls
+			out.Put(event{E: "hnew", M: c.M, Pi: c.Pi, Tr: c.Tr, Smap: c.Smap, Em: c.Em, Eden: c.Eden, Start: c.Start, Final: c.Final,
+				X: []int{}, Marg: [][]int64{}, Q: [][]int{}, Path: []int{}, W: []int{}, S: []int{}, H: 1})
+			if c.Start == nil {
+				c.Start = []int{}
 			}
-			{
-				q := make([][]int, n)
-				q0 := make([][]int, n)
-				for tt := range q {
-					q[tt] = randSubset(rng, c.M, rng.Intn(6) == 0)
-					q0[tt] = minus1(q[tt])
+			// the recorder's copy holds the effective initial weights (zero outside the start set)
+			cur := *c
+			if len(c.Start) > 0 {
+				pi := make([]int, c.M)
+				for _, i := range c.Start {
+					pi[i-1] = c.Pi[i-1]
 				}
-				v, err := inf.posterior(q0)
-				e := base
-				e.Op, e.Impl, e.Q, e.V = "posterior", "generic-"+t.name, q, fixed(v)
-				if err != nil {
-					e.V = -1
-				}
-				out.Put(e)
+				cur.Pi = pi
 			}
-			if p, err := inf.viterbi(); err == nil {
-				e := base
-				e.Op, e.Impl = "viterbi", "generic-"+t.name
-				for _, s := range p {
-					e.Path = append(e.Path, s+1)
-				}
-				out.Put(e)
-			}
-			// the float64-specialised recursion: likelihood and (identity state map) marginals of one Baum-Welch step
-			if len(c.Final) <= 1 {
-				if res, err := runBaumWelch(c, h, logE); err == nil {
-					e := base
-					e.Op, e.Impl, e.V = "logpdf", "optimized-"+t.name, fixed(res.lik)
-					out.Put(e)
-					if isIdentity(c.Smap) {
-						e := base
-						e.Op, e.Impl = "marginals", "optimized-"+t.name
-						for tt := 0; tt < n; tt++ {
-							row := make([]int64, c.M)
-							for i := 0; i < c.M; i++ {
-								row[i] = fixed(res.gamma[i][tt])
-							}
-							e.Marg = append(e.Marg, row)
-						}
-						out.Put(e)
-					}
-				}
+			cp := &cur
+			recordCalls(rng, out, cp, h, t, x, q, 1)
+			for k := 0; k < 1+rng.Intn(2); k++ {
+				cp, h = recordChange(rng, out, cp, h, t)
+				recordCalls(rng, out, cp, h, t, x, q, 1)
 			}
 		})
 		wd.End()
 		if msg != "" {
-			e := base
-			e.Op, e.V = "panic:"+msg, -1
-			out.Put(e)
+			out.Put(event{E: "hmm", Op: "panic:" + msg, V: -1, M: c.M, Pi: c.Pi, Tr: c.Tr, Smap: c.Smap, Em: c.Em, Eden: c.Eden,
+				Start: c.Start, Final: c.Final, X: x, Marg: [][]int64{}, Q: [][]int{}, Path: []int{}, W: []int{}, S: []int{}})
 		}
 	}
 }
 
-func recordMixture(rng *rand.Rand, out *vh.Out) {
+func recordMixture(rng *rand.Rand, out *vh.Out, history bool) {
 	k := 1 + rng.Intn(4)
 	w := composition(rng, 3+rng.Intn(6), k)
 	em := [][]int{}
@@ -1587,8 +1764,12 @@ func recordMixture(rng *rand.Rand, out *vh.Out) {
 	for i := range x {
 		x[i] = rng.Intn(2)
 	}
-	base := event{E: "mix", K: k, W: w, Em: em, Eden: 4, X: x, Pi: []int{}, Tr: [][]int{}, Smap: []int{}, Start: []int{}, Final: []int{},
-		Marg: [][]int64{}, Q: [][]int{}, Path: []int{}, S: []int{}}
+	hflag := 0
+	if history {
+		hflag = 1
+	}
+	blank := event{K: k, Em: em, Eden: 4, X: []int{}, Pi: []int{}, Tr: [][]int{}, Smap: []int{}, Start: []int{}, Final: []int{},
+		Marg: [][]int64{}, Q: [][]int{}, Path: []int{}, S: []int{}, W: []int{}, H: hflag}
 	logE := logTable(em, 4)
 	comp := make([]float64, k)
 	for j := 0; j < k; j++ {
@@ -1600,33 +1781,68 @@ func recordMixture(rng *rand.Rand, out *vh.Out) {
 	if rng.Intn(2) == 0 {
 		t = r64
 	}
-	msg := vh.Try(func() {
-		m, err := generic.NewMixture(mkVec(t, floats(w)))
-		if err != nil {
-			panic(err)
-		}
+	s := randSubset(rng, k, false)
+	s2 := randSubset(rng, k, false)
+	// LogPdf, Posterior and Likelihood for the component list `set` on the object m with weights w
+	calls := func(m *generic.Mixture, w []int, set []int) {
+		base := blank
+		base.E, base.W, base.X = "mix", w, x
 		g := genMix{m, mixRec{comp}, t}
 		lp, _ := g.LogPdf()
 		zero := math.IsInf(lp, -1)
 		e := base
 		e.Op, e.Impl, e.Zero, e.V = "logpdf", "generic-"+t.name, zero, fixed(lp)
 		out.Put(e)
-		s := randSubset(rng, k, false)
 		if !zero {
-			v, _ := g.Posterior(minus1(s))
+			v, _ := g.Posterior(minus1(set))
 			e := base
-			e.Op, e.Impl, e.S, e.V = "posterior", "generic-"+t.name, s, fixed(v)
+			e.Op, e.Impl, e.S, e.V = "posterior", "generic-"+t.name, set, fixed(v)
 			out.Put(e)
 		}
-		if sumOver(w, s) > 0 {
-			v, _ := g.Likelihood(minus1(s))
+		if sumOver(w, set) > 0 {
+			v, _ := g.Likelihood(minus1(set))
 			e := base
-			e.Op, e.Impl, e.S, e.Zero, e.V = "likelihood", "generic-"+t.name, s, zero, fixed(v)
+			e.Op, e.Impl, e.S, e.Zero, e.V = "likelihood", "generic-"+t.name, set, zero, fixed(v)
 			out.Put(e)
+		}
+	}
+	msg := vh.Try(func() {
+		m, err := generic.NewMixture(mkVec(t, floats(w)))
+		if err != nil {
+			panic(err)
+		}
+		if !history {
+			calls(m, w, s)
+			return
+		}
+		// one object: calls, the same calls again, change of the weights (or Clone), the same calls, the other list, the first list
+		e := blank
+		e.E, e.W = "mnew", w
+		out.Put(e)
+		calls(m, w, s)
+		calls(m, w, s)
+		for r := 0; r < 2; r++ {
+			e := blank
+			e.E = "mchg"
+			if rng.Intn(4) == 0 {
+				e.Ck = "clone"
+				m = m.Clone()
+			} else {
+				w = composition(rng, 3+rng.Intn(6), k)
+				e.Ck, e.W = "set", w
+				if err := m.SetParameters(mkVec(t, logNorm(w))); err != nil {
+					panic(err)
+				}
+			}
+			out.Put(e)
+			calls(m, w, s)
+			calls(m, w, s2)
+			calls(m, w, s)
 		}
 	})
 	if msg != "" {
-		e := base
+		e := blank
+		e.E, e.W, e.X = "mix", w, x
 		e.Op, e.V = "panic:"+msg, -1
 		out.Put(e)
 	}
